@@ -53,6 +53,9 @@ def resolve_target(target):
     assert os.path.realpath(os.path.dirname(space_packet_parser.__file__)).startswith(os.path.realpath(REPO)), \
         f"wrong tree imported: {space_packet_parser.__file__}"
     parts = target.split('.')
+    if parts[0] == 'ghost':
+        mod = importlib.import_module('contracts.ghost_programs')
+        return getattr(mod, parts[1])
     for i in range(len(parts), 0, -1):
         modname = 'space_packet_parser.' + '.'.join(parts[:i])
         try:
